@@ -240,6 +240,13 @@ func (e *Engine) callWrites(fr *Frame, cc *ssa.CallCommon, ws *writeSet, depth i
 		e.funcWrites(fr, fv.Fn.(*ssa.Function), cc, ws, depth, seen)
 		return
 	}
+	// a value of a named function type with a contract under the type's name
+	if n, ok := cc.Value.Type().(*types.Named); ok && n.Obj().Pkg() != nil {
+		if c := e.db.Contracts[n.Obj().Pkg().Name()+"."+n.Obj().Name()]; c != nil {
+			e.contractWrites(c, ws, cc.Signature(), false, nil, cc)
+			return
+		}
+	}
 	// function value: unknown closure -> if a MakeClosure in this function produced it we cannot tell; be conservative
 	ws.all, ws.allPlain = true, true
 	ws.why = append(ws.why, "call through function value "+cc.Value.Name())
@@ -600,6 +607,9 @@ func (e *Engine) havocVal(st *State, old Val, t types.Type) Val {
 
 func (e *Engine) loopBackEdge(fr *Frame, st *State, l *Loop) {
 	fnKey := funcKey(fr.fn)
+	if fr.depth == 0 && fr.fn == e.curFn && !st.dead && len(e.backCovers) < 400 {
+		e.backCovers = append(e.backCovers, Outcome{st: st, site: "loop body at " + e.posOf(l.Pos)})
+	}
 	for _, k := range l.autoFrame {
 		e.emit(&Obligation{Kind: "inv-step", Fn: fnKey, Label: fmt.Sprintf("loop-%d:auto-frame:%s", l.Ordinal, shortHeapKey(k)), PC: st.pc, Goal: e.frameGoal(st, k), Src: "frame of the function is preserved by the loop body for " + k, Trace: st.trace})
 	}
